@@ -18,7 +18,7 @@ RULE = ('send((generator, size)) with an instrumented generator that counts pull
 ASSUME = ['user generators yield ints 0..255 and do not raise']
 
 
-def run_one(rng, inst, size, have, fill, bs):
+def run_one(rng, inst, size, have, fill, bs, limited=False):
     """returns (PeerRun, pulls after each op, payload bytes emitted after each op)"""
     pr = PeerRun([inst], links={0: 0})
     rid, ext, pfx = reach(inst)
@@ -57,7 +57,7 @@ def run_one(rng, inst, size, have, fill, bs):
         if need:
             pr.op(0, 'rx', rid, int(ext), hx(pfx + bytes([0x30, bs, 0])))
         elif not new:
-            pr.tick_all(1000000)
+            pr.tick_all(63 * 10**6 if limited else 1000000)
     pr.close()
     return pr, trace
 
@@ -156,7 +156,15 @@ def run_shard(campaign, shard, nshards, seed, tier):
                 if size > 1000 and delta not in (0, -1, 'inf'):
                     continue
                 bs = rng.choice([0, 1, 4])
-                pr, trace = run_one(rng, inst, size, have, fill, bs)
+                # a third of the short transfers run under a rate limiter of two frames per window: frames are held back, never lost
+                limited = size <= ff + 3 * cf + 1 and rng.random() < 0.35
+                if limited:
+                    inst_l = {'txa': a, 'rxa': None, 'params': dict(params, rate_limit_enable=True, rate_limit_max_bitrate=tx_dl * 128, rate_limit_window_size=0.125,
+                                                                     rx_flowcontrol_timeout=10**6)}
+                    pr, trace = run_one(rng, inst_l, size, have, fill, bs, limited=True)
+                else:
+                    pr, trace = run_one(rng, inst, size, have, fill, bs)
+                part.hist('rate_limited', str(limited))
                 part.d['evaluations'] += 1
                 part.distinct((tx_dl, mode, size, delta, bs))
                 part.hist('size_vs_generator', 'equal' if delta == 0 else ('endless' if delta == 'inf' else ('short' if delta < 0 else 'long')))
